@@ -145,11 +145,14 @@ struct Shadow {
     files: Vec<String>,
     dirs: Vec<String>,
     open: [bool; 3],
+    /// a name may be file and directory at once (create over a directory): remove_dir_all's
+    /// HashSet iteration order then decides where it fails, so it is no longer generated
+    weird: bool,
 }
 
 impl Shadow {
     fn new() -> Self {
-        Shadow { files: vec![], dirs: vec![], open: [false; 3] }
+        Shadow { files: vec![], dirs: vec![], open: [false; 3], weird: false }
     }
     fn parent_ok(&self, p: &str) -> bool {
         match p.rfind('/') {
@@ -269,6 +272,7 @@ fn rand_op(r: &mut Rng, sh: &mut Shadow, pool: &[String], with_sync: bool, actor
                 return format!("{a} rmdir {p}");
             }
             73 => {
+                if sh.weird { continue; }
                 let p = pick_dir(r, sh);
                 let pre = format!("{}/", p);
                 sh.dirs.retain(|d| d != &p && !d.starts_with(&pre));
@@ -326,6 +330,7 @@ fn rand_op(r: &mut Rng, sh: &mut Shadow, pool: &[String], with_sync: bool, actor
                 // kind confusion: rename file <-> directory names, mkdir over a file, create over a dir
                 let f = pick_file(r, sh);
                 let d = pick_dir(r, sh);
+                sh.weird = true;
                 match r.below(5) {
                     0 => return format!("{a} rename {f} {d}"),
                     1 => {
@@ -402,7 +407,7 @@ pub fn generate(
                 }
             }
             if want("rand") {
-                let n = cases.unwrap_or(if thorough { 60_000 } else if search { 8_000 } else { 2_500 });
+                let n = cases.unwrap_or(if thorough { 60_000 } else if search { 8_000 } else { 12_000 });
                 for i in 0..n {
                     let len = 3 + r.below(14);
                     let with_sync = r.chance(2, 3);
@@ -477,7 +482,7 @@ pub fn generate(
                 }
             }
             if want("rand") {
-                let n = cases.unwrap_or(if thorough { 6_000 } else if search { 1_500 } else { 400 });
+                let n = cases.unwrap_or(if thorough { 6_000 } else if search { 1_500 } else { 2_000 });
                 for i in 0..n {
                     let len = 3 + r.below(12);
                     let hist = rand_history(&mut r, len, &default_pool(), true, true, 0);
